@@ -37,7 +37,8 @@ RULE = (
     "copy(predicate), filtered, copy_to, to_dict_list(mapper), to_dotfile(stream, node_mapper), `with tree:`+iterate; "
     "a schedule = list of ints). Oracle: every snapshot, decoded to a shape, equals a committed state S_j with "
     "commits-at-call-start <= j <= commits-at-return; no deadlock, no hang; no exception. Exhaustive part: ALL "
-    "schedules of (one 'pair' or 'rebuild' section) x (one snapshot operation). Real-lock part: owner nests `with "
+    "schedules of (one 'pair' or 'rebuild' section) x (one snapshot operation). Real-lock part (real RLock, real timing): first use of the lock by two threads at once on a brand-new tree "
+    "(lock construction slowed down), a writer that stays inside for 7 s, and: owner nests `with "
     "tree:` and calls every snapshot operation (must not deadlock); a second thread started while the owner is "
     "mid-section gets a committed state. Non-trivial: some thread blocked on the tree lock at least once; distinct = "
     "distinct (program, schedule)."
@@ -367,9 +368,69 @@ def run_exhaustive(case, rec):
 
 
 # ---- real lock, no scheduler ------------------------------------------------------------------
+def run_real_special(case, rec):
+    """Two timing situations of the real lock that the scheduler's lock model cannot show:
+    first-use: the writer's first `with tree:` and the reader's first snapshot on a brand-new tree start together
+               (lock construction is slowed down, which is harmless when the lock exists before the tree is shared);
+    long-hold: the writer stays inside `with tree:` for several seconds; the reader must keep waiting."""
+    mode, op = case["mode"], case["op"]
+    rec.evals += 1
+    rec.nt(True)
+    rec.cls(f"mode={mode}")
+    orig_rlock = threading.RLock
+    if mode == "first-use":
+        def slow_rlock(*a, **kw):
+            time.sleep(0.05)
+            return orig_rlock(*a, **kw)
+
+        threading.RLock = slow_rlock
+    try:
+        tree = Tree("T")
+        tree.add("base1").add("b1a")
+        tree.add("base2")
+        committed = [tshape(tree)]
+        go = threading.Barrier(2)
+        out = {}
+        hold = 7.0 if mode == "long-hold" else 0.4
+
+        def owner():
+            go.wait(10)
+            with tree:
+                x = tree.add("wa")
+                time.sleep(hold)
+                x.add("wb")
+                committed.append(tshape(tree))
+
+        def reader():
+            go.wait(10)
+            time.sleep(0.02 if mode == "first-use" else 0.3)
+            try:
+                out["res"] = do_reader_op(tree, op)
+            except Exception as e:  # noqa: BLE001
+                out["err"] = e
+
+        to, tr = threading.Thread(target=owner, daemon=True), threading.Thread(target=reader, daemon=True)
+        to.start()
+        tr.start()
+        to.join(120)
+        tr.join(30)
+    finally:
+        threading.RLock = orig_rlock
+    if to.is_alive() or tr.is_alive():
+        rec.fail(f"real-lock:{mode}:deadlock:{op}", {"owner_alive": to.is_alive(), "reader_alive": tr.is_alive()})
+        rec.stop_shard = True
+        return
+    if "err" in out:
+        rec.fail(f"real-lock:{mode}:snapshot-raised:{op}", repr(out["err"])[:200])
+    elif not any(agrees(out.get("res"), c) for c in committed):
+        rec.fail(f"real-lock:{mode}:torn-snapshot:{op}", {"snapshot": out.get("res"), "committed": committed})
+
+
 def run_real(case, rec):
     """The owner nests `with tree:` and calls every snapshot operation inside;
     a second thread started meanwhile must come back with a committed state."""
+    if case.get("mode"):
+        return run_real_special(case, rec)
     op = case["op"]
     tree = Tree("T")  # plain Tree with its real RLock
     a = tree.add("base1")
@@ -438,6 +499,10 @@ def enum_cases(tier):
 
 
 def real_cases(tier):
+    for op in (["to_dict_list", "save", "copy"] if tier == "quick" else READER_OPS):
+        yield {"mode": "first-use", "op": op}
+    for op in (["to_dict_list"] if tier == "quick" else ["to_dict_list", "save", "copy", "with+iterate"]):
+        yield {"mode": "long-hold", "op": op}
     for op in READER_OPS:
         for inner in (READER_OPS if tier == "thorough" else [op, "copy"]):
             yield {"op": op, "inner": inner}
